@@ -343,6 +343,8 @@ func (ex *Exec) assumeTypeFacts(st *State, t types.Type, v Term) {
 		if u.NumMethods() > 0 {
 			st.assume(or(eq(v, nilVal), ex.implementsPred(t, app(SInt, "typeof", v))))
 		}
+		// a pointer held in an existing interface value was allocated earlier
+		st.assume(lt(app(SInt, "pl_ptr", v), st.alloc))
 	case *types.Struct:
 		if v.Sort == "RV" || v.Sort == SStr || v.Sort == SBool || v.Sort == "Time" {
 			return
